@@ -123,6 +123,20 @@ def run(ctx: Ctx):
                 ctx.violation("failing-input", "warm-deaths", case, dict(broken=bad[:3], theorem="Ladim.C09.dead_stay_dead / Ladim.SimWarm.restart_sim"),
                               tags=dict(first="ghost"))
 
+    # ---- flag columns in the release file, whole runs against the model (`Sim.rowToRP` reads `active` and `alive`): particles that
+    # are kept but not moved, and particles that are dead on arrival (they use up an identifier and appear in no record)
+    fcases = []
+    for k in range(12 if ctx.thorough else 4):
+        sc = scen.gen(ctx.seed * 100000 + 9900 + k, layout=["sparse", "dense"][k % 2], kills=False, speed=1.0, continuous=bool(k % 4 == 3), nsteps=6, period=1,
+                      scheme=["EF", "RK2", "RK4"][k % 3], rev=bool(k % 4 == 2), numrec=0)
+        r0 = sc["rows"][0]
+        sc["rows"] = [dict(r0, step=0, mult=1, active=[1, 0][k % 2]), dict(r0, step=0, mult=2, active=[0, 1][k % 2], X=r0["X"] + 0.25),
+                      dict(r0, step=0, mult=1, active=1, alive=[1, 0][(k // 2) % 2], Y=r0["Y"] + 0.25), dict(r0, step=2, mult=1, active=0), dict(r0, step=2, mult=1, active=1)]
+        if sc["continuous"]:
+            sc["freq"] = 2
+        fcases.append(sc)
+    scen.e2e_stream(ctx, "whole-run-flags", fcases, "Ladim.C09.inactive_fixed / dead_stay_dead for particles flagged in the release table (Ladim.Sim.flagOf)")
+
     # ---- flags given in the release file: a column `active` of zeros and ones (F24).  The particles with 0 are kept where they
     # are, each of the others moves with the flow — whatever the order of the rows
     for k, flags in enumerate([[1, 0, 1], [0, 1, 1], [1, 1, 0, 0, 1], [0, 0, 1]]):
